@@ -185,6 +185,7 @@ const (
 	TSchemaVal               // value is / derives from a *Schema
 	TParamObj                // caller-supplied Object
 	TSchemaFields            // the descriptor map loaded from Schema.Fields
+	TWitness                 // the object a schema keeps as type witness (Schema.object)
 )
 
 const closedTags = TDecoded | TLive | TCache | TPend | TSchemaPath | TObjName | TParamObj // closed under loads
